@@ -841,6 +841,181 @@ fn keys_mode(seed: u64) {
     }
 }
 
+// ------------------------------------------------------------------ ECVRF: oracle tables for the executable byte-level model (VrfBytesExec.v)
+struct Ops { mul: Vec<J>, add: Vec<J>, neg: Vec<J>, dec: Vec<J> }
+fn sc_dec(s: &Scalar) -> String { BigUint::from_bytes_le(&s.to_bytes()).to_string() }
+fn ph(p: &EdwardsPoint) -> String { hex(&p.compress().to_bytes()) }
+impl Ops {
+    fn new() -> Ops { Ops { mul: vec![], add: vec![], neg: vec![], dec: vec![] } }
+    fn mul(&mut self, s: &Scalar, p: &EdwardsPoint) -> EdwardsPoint { let r = s * p; self.mul.push(json!([sc_dec(s), ph(p), ph(&r)])); r }
+    fn mul8(&mut self, p: &EdwardsPoint) -> EdwardsPoint { let r = p.mul_by_cofactor(); self.mul.push(json!(["8", ph(p), ph(&r)])); r }
+    fn sub(&mut self, p: &EdwardsPoint, q: &EdwardsPoint) -> EdwardsPoint {
+        let nq = -q; self.neg.push(json!([ph(q), ph(&nq)]));
+        let r = p + nq; self.add.push(json!([ph(p), ph(&nq), ph(&r)])); r
+    }
+    fn dec(&mut self, b: &[u8]) -> Option<EdwardsPoint> {
+        let mut a = [0u8; 32]; if b.len() < 32 { return None } a.copy_from_slice(&b[..32]);
+        let r = CompressedEdwardsY(a).decompress();
+        self.dec.push(json!([hex(&a), r.map(|p| ph(&p))])); r
+    }
+    fn json(&self) -> J { json!({"mul": self.mul, "add": self.add, "neg": self.neg, "dec": self.dec}) }
+}
+/// the candidate loop of hash_to_curve with every decompression / cofactor multiplication recorded
+fn h2c_trace(ops: &mut Ops, pkb: &[u8], alpha: &[u8]) -> (Vec<String>, Option<EdwardsPoint>) {
+    let mut cands = Vec::new();
+    for ctr in 0..=255u8 {
+        let d = Sha512::new().chain_update([3u8]).chain_update([1u8]).chain_update(pkb).chain_update(alpha).chain_update([ctr]).chain_update([0u8]).finalize();
+        cands.push(hex(&d[..32]));
+        if let Some(p) = ops.dec(&d[..32]) { let p8 = ops.mul8(&p); if !p.is_small_order() { return (cands, Some(p8)) } }
+    }
+    (cands, None)
+}
+/// everything PublicKey::verify computes, recorded; decision from the real code
+fn verify_trace(ops: &mut Ops, pk: &ecvrf::PublicKey, y: &EdwardsPoint, pib: &[u8], alpha: &[u8], label: &str) -> J {
+    let pkb = to_bytes(pk);
+    let parsed: Option<ecvrf::Proof> = from_bytes(&mut &pib[..]).ok();
+    let (cands, h) = h2c_trace(ops, &pkb, alpha);
+    let mut r = json!({"label": label, "alpha": hex(alpha), "pi": hex(pib), "cands": cands, "parsed": parsed.is_some()});
+    if let Some(hp) = pk.hash_to_curve(alpha) { r["H_impl"] = json!(ph(&hp)); }
+    if let (Some(h), Some(pr)) = (h, parsed) {
+        let _ = ops.dec(&pib[..32]);
+        let ecvrf::Proof(gamma, c, s) = &pr;
+        let sb = ops.mul(s, &dc::ED25519_BASEPOINT_POINT); let cy = ops.mul(c, y); let u = ops.sub(&sb, &cy);
+        let sh = ops.mul(s, &h); let cg = ops.mul(c, gamma); let v = ops.sub(&sh, &cg);
+        let g8 = ops.mul8(gamma);
+        r["H"] = json!(ph(&h)); r["Gamma"] = json!(ph(gamma)); r["U"] = json!(ph(&u)); r["V"] = json!(ph(&v)); r["G8"] = json!(ph(&g8));
+        r["c"] = json!(sc_dec(c)); r["s"] = json!(sc_dec(s));
+        r["decision"] = jb(g(|| pk.verify(&pr, alpha)));
+        r["beta"] = json!(hex(&pr.to_hash()));
+        r["reser"] = json!(hex(&to_bytes(&pr)));
+    }
+    r
+}
+fn l_big() -> BigUint { (BigUint::from(1u8) << 252) + BigUint::parse_bytes(b"27742317777372353535851937790883648493", 10).unwrap() }
+fn le32(x: &BigUint) -> Vec<u8> { let mut v = x.to_bytes_le(); v.resize(32, 0); v.truncate(32); v }
+
+fn vrfx_case(rng: &mut Rng, skb: &[u8], alpha: &[u8]) -> J {
+    let sk = ecvrf::SecretKey::from_bytes(skb).unwrap();
+    let pk = ecvrf::PublicKey::from(&sk);
+    let pkb = to_bytes(&pk);
+    let pr = match g(|| sk.prove(&pk, alpha)) { Ok(p) => p, Err(e) => return json!({"k": "vrfx", "panic": e}) };
+    let pib = to_bytes(&pr);
+    let mut ops = Ops::new();
+    let x = secret_scalar(skb);
+    let y = ops.mul(&x, &dc::ED25519_BASEPOINT_POINT);
+    let _ = ops.dec(&pkb); let _ = ops.mul8(&y);
+    // prove: Gamma = x*H, k*B, k*H for k = s - c*x
+    let (cands, h) = h2c_trace(&mut ops, &pkb, alpha);
+    let h = h.unwrap();
+    let ecvrf::Proof(gamma, c, s) = &pr;
+    let k = s - c * x;
+    let gm = ops.mul(&x, &h); let kb = ops.mul(&k, &dc::ED25519_BASEPOINT_POINT); let kh = ops.mul(&k, &h); let g8 = ops.mul8(&gm);
+    let prove = json!({"cands": cands, "H": ph(&h), "Gamma": ph(&gm), "U": ph(&kb), "V": ph(&kh), "G8": ph(&g8), "gamma_is_xH": gm == *gamma});
+    // verifications: honest, other message, s + 1, c + 1, Gamma + small-order point
+    let mut ver = Vec::new();
+    ver.push(verify_trace(&mut ops, &pk, &y, &pib, alpha, "honest"));
+    let mut a2 = alpha.to_vec(); a2.push(7);
+    ver.push(verify_trace(&mut ops, &pk, &y, &pib, &a2, "other_msg"));
+    let one = Scalar::from(1u8);
+    ver.push(verify_trace(&mut ops, &pk, &y, &to_bytes(&ecvrf::Proof(*gamma, *c, s + one)), alpha, "s_plus_1"));
+    let mut cb = pib.clone(); cb[32] ^= 1;
+    ver.push(verify_trace(&mut ops, &pk, &y, &cb, alpha, "c_bit"));
+    let tors = dc::EIGHT_TORSION[1 + rng.below(7) as usize];
+    ver.push(verify_trace(&mut ops, &pk, &y, &to_bytes(&ecvrf::Proof(gamma + tors, *c, *s)), alpha, "gamma_torsion"));
+    // malformed / non-canonical encodings of the proof: decode decisions
+    let l = l_big(); let sv = BigUint::from_bytes_le(&s.to_bytes());
+    let mut variants: Vec<(String, Vec<u8>)> = Vec::new();
+    let with_s = |sb: Vec<u8>| { let mut v = pib[..48].to_vec(); v.extend_from_slice(&sb); v };
+    variants.push(("s=l".into(), with_s(le32(&l))));
+    variants.push(("s=l-1".into(), with_s(le32(&(&l - 1u8)))));
+    variants.push(("s=s+l".into(), with_s(le32(&(&sv + &l)))));
+    variants.push(("s=2^256-1".into(), with_s(vec![0xff; 32])));
+    variants.push(("s|2^255".into(), { let mut b = s.to_bytes().to_vec(); b[31] |= 0x80; with_s(b) }));
+    variants.push(("s=0".into(), with_s(vec![0; 32])));
+    variants.push(("c=ff..".into(), { let mut v = pib.clone(); for i in 32..48 { v[i] = 0xff } v }));
+    variants.push(("len79".into(), pib[..79].to_vec()));
+    variants.push(("len81".into(), { let mut v = pib.clone(); v.push(0); v }));
+    variants.push(("empty".into(), vec![]));
+    variants.push(("gamma_noncanonical_identity".into(), { let mut v = pib.clone(); let p = ed_p() + 1u8; v[..32].copy_from_slice(&le32(&p)); v }));
+    variants.push(("gamma_identity_signbit".into(), { let mut v = pib.clone(); for i in 0..32 { v[i] = 0 } v[0] = 1; v[31] = 0x80; v }));
+    let mut gb = pib.clone();
+    for t in 0..64u8 { let mut w = pib.clone(); w[1] ^= t.wrapping_add(1); let mut a = [0u8; 32]; a.copy_from_slice(&w[..32]); if CompressedEdwardsY(a).decompress().is_none() { gb = w; break } }
+    variants.push(("gamma_not_on_curve".into(), gb));
+    variants.push(("random80".into(), rng.bytes(80)));
+    let vj: Vec<J> = variants.iter().map(|(lab, b)| {
+        let _ = ops.dec(b);
+        let p: Option<ecvrf::Proof> = from_bytes(&mut &b[..]).ok();
+        json!({"label": lab, "bytes": hex(b), "parsed": p.is_some(), "reser": p.map(|q| hex(&to_bytes(&q)))})
+    }).collect();
+    json!({"k": "vrfx", "sk": hex(skb), "alpha": hex(alpha), "pk": hex(&pkb), "pi": hex(&pib), "beta": hex(&pr.to_hash()),
+           "x": sc_dec(&x), "kk": sc_dec(&k), "c": sc_dec(c), "s": sc_dec(s), "B": ph(&dc::ED25519_BASEPOINT_POINT),
+           "prove": prove, "verifies": ver, "variants": vj, "ops": ops.json()})
+}
+
+fn vrfx_mode(seed: u64, n: u64) {
+    let mut rng = Rng::new(seed ^ 0x51f);
+    for (sk, alpha, _, _, _) in VECTORS.iter() { println!("{}", vrfx_case(&mut rng, &hlib::unhex(sk), &hlib::unhex(alpha))); }
+    for i in 0..n {
+        let skb = match i % 7 { 5 => vec![0u8; 32], 6 => vec![0xffu8; 32], _ => rng.bytes(32) };
+        let alpha = match i % 5 { 0 => vec![], 1 => rng.bytes(1), 2 => rng.bytes(32), 3 => vec![0u8; 64], _ => rng.bytes(150) };
+        println!("{}", vrfx_case(&mut rng, &skb, &alpha));
+    }
+}
+
+// ------------------------------------------------------------------ has_duplicates (hook) and the key sums around the 150-key threshold
+fn dups_mode(seed: u64, n: u64) {
+    let mut rng = Rng::new(seed ^ 0xd0b);
+    for i in 0..n {
+        let len = match i % 8 { 0 => 0, 1 => 1, 2 => 2, 3 => 2, 4 => 3, 5 => 5, 6 => 17, _ => 40 } as usize;
+        let mut msgs: Vec<Vec<u8>> = (0..len).map(|j| { let l = rng.below(4) as usize; let mut m = rng.bytes(l); m.push(j as u8); m }).collect();
+        // shape: distinct / one duplicate (adjacent, far apart, first=last) / all equal / two duplicated pairs
+        let shape = if len < 2 { 0 } else { rng.below(6) };
+        match shape {
+            1 => { let a = rng.below(len as u64 - 1) as usize; msgs[a + 1] = msgs[a].clone() }
+            2 => { let a = rng.below(len as u64) as usize; let b = rng.below(len as u64) as usize; if a != b { msgs[b] = msgs[a].clone() } }
+            3 => { msgs[len - 1] = msgs[0].clone() }
+            4 => { let m = msgs[0].clone(); for x in msgs.iter_mut() { *x = m.clone() } }
+            5 => { if len >= 4 { msgs[1] = msgs[0].clone(); msgs[len - 1] = msgs[len - 2].clone() } }
+            _ => {}
+        }
+        let refs: Vec<&[u8]> = msgs.iter().map(|m| &m[..]).collect();
+        let r = g(|| agg::verif_has_duplicates(&refs));
+        match r {
+            Ok((d, hs)) => println!("{}", json!({"k": "dups", "len": len, "shape": shape, "msgs": msgs.iter().map(|m| hex(m)).collect::<Vec<_>>(),
+                                                 "has_duplicates": d, "digests": hs.iter().map(|h| hex(h)).collect::<Vec<_>>()})),
+            Err(e) => println!("{}", json!({"k": "dups", "len": len, "panic": e})),
+        }
+    }
+}
+
+fn par_run<P: Pairing<ScalarField = S>>(sks: &[S], m: &[u8]) -> J {
+    let keys: Vec<agg::SecretKey<P>> = sks.iter().map(mk_sk::<P>).collect();
+    let pks: Vec<agg::PublicKey<P>> = keys.iter().map(agg::PublicKey::from_secret).collect();
+    let mut sig = agg::Signature::<P>::empty();
+    for k in keys.iter() { sig = sig.aggregate(k.sign(m)); }
+    let bad = sig.aggregate(mk_sk::<P>(&s_u64(1)).sign(m));
+    let groups: Vec<(&[u8], &[agg::PublicKey<P>])> = vec![(m, &pks[..])];
+    json!({"trusted": jb(g(|| agg::verify_aggregate_sig_trusted_keys(m, &pks, sig))),
+           "trusted_bad": jb(g(|| agg::verify_aggregate_sig_trusted_keys(m, &pks, bad))),
+           "hybrid": jb(g(|| agg::verify_aggregate_sig_hybrid(&groups, sig))),
+           "hybrid_bad": jb(g(|| agg::verify_aggregate_sig_hybrid(&groups, bad))),
+           "sig": hex(&to_bytes(&sig))})
+}
+
+fn par_mode(seed: u64) {
+    let mut rng = Rng::new(seed ^ 0x9a7);
+    for n in [0usize, 1, 2, 3, 7, 148, 149, 150, 151, 152, 299, 300, 301] {
+        let sks: Vec<S> = (0..n).map(|_| s_rand(&mut rng)).collect();
+        let m = rng.bytes(5);
+        let mut toy = par_run::<Toy>(&sks, &m);
+        let tb = hlib::unhex(toy["sig"].as_str().unwrap_or(""));
+        toy["sig_exp"] = json!(from_bytes::<S, _>(&mut &tb[..]).map(|s| s_dec(&s)).unwrap_or_default());
+        let real = if n <= 152 { par_run::<Bls12>(&sks, &m) } else { json!(null) };
+        println!("{}", json!({"k": "par", "n": n, "sks": sks.iter().map(s_dec).collect::<Vec<_>>(), "h": s_dec(&toy_hash(&m)), "toy": toy, "real": real,
+                              "threads": std::env::var("RAYON_NUM_THREADS").unwrap_or_default()}));
+    }
+}
+
 fn main() {
     hlib::quiet_panics();
     let a: Vec<String> = std::env::args().collect();
@@ -855,6 +1030,9 @@ fn main() {
         "vrf" => vrf_mode(seed, n, if extra == 0 { 48 } else { extra }),
         "bits" => bits_mode(seed, n, if extra == 0 { 48 } else { extra }),
         "keys" => keys_mode(seed),
+        "vrfx" => vrfx_mode(seed, n),
+        "dups" => dups_mode(seed, n),
+        "par" => par_mode(seed),
         _ => { eprintln!("usage: c19 bls|ps|pop|vrf|bits <seed> <n> [extra]"); std::process::exit(2) }
     }
 }
